@@ -199,8 +199,35 @@ def check_factory(ndim):
     return None
 
 
+def check_cone_factory():
+    odl, np = _odl()
+    for lo, hi, rs, rd in (([-1, -1], [1, 1], 2.0, 2.0), ([-1, -1], [1, 1], 3.0, 9.0), ([0, 0], [2, 2], 4.0, 1.0)):
+        space = odl.uniform_discr(lo, hi, (20, 20))
+        g = odl.tomo.cone_beam_geometry(space, src_radius=rs, det_radius=rd)
+        corners = space.domain.corners()
+        worst = 0.0
+        for a in np.linspace(0, 2 * np.pi, 721):
+            src, ref, ax = g.src_position(a), g.det_refpoint(a), g.det_axis(a)
+            n = (ref - src) / np.linalg.norm(ref - src)
+            for p in corners:
+                d = p - src
+                hit = src + np.dot(ref - src, n) / np.dot(d, n) * d
+                worst = max(worst, abs(np.dot(hit - ref, ax)))
+        half = g.det_params.max_pt[0]
+        if worst > half * (1 + 1e-9):
+            return ('cone_beam_geometry(uniform_discr(%r, %r, (20, 20)), src_radius=%r, det_radius=%r): the rays through the volume corners reach detector coordinate |u| = %.6g, '
+                    'the detector only spans [-%.6g, %.6g]' % (lo, hi, rs, rd, worst, half, half))
+    return None
+
+
 def replay(ob):
     parts = ob['unit'].split('/')
+    if parts[0] == 'factory' and 'cone_beam_geometry' in ob['unit']:
+        try:
+            bad = check_cone_factory()
+        except Exception as e:
+            return {'reproduced': False, 'detail': 'native evaluation raised %s: %s' % (type(e).__name__, e)}
+        return {'reproduced': bool(bad), 'detail': bad or 'the fan-beam detector covers the volume natively'}
     if parts[0] == 'factory':
         try:
             bad = check_factory(int((ob.get('config') or {}).get('ndim', 2)))
